@@ -218,6 +218,7 @@ func hWire(dir string) {
 	r := newRand(18)
 	g := wgen{r}
 	pooledCmdMismatch := 0
+	prevCmd := &regattapb.Command{RangeEnd: []byte("x"), Table: []byte("t")}
 	for i := 0; i < n; i++ {
 		switch r.Intn(5) {
 		case 0: // SnapshotChunk, decoded into a recycled object as snapshot.Reader does
@@ -250,16 +251,30 @@ func hWire(dir string) {
 			must(err)
 			fresh := &regattapb.Command{}
 			must(codec.Unmarshal(append([]byte{}, b...), fresh))
-			out.Line("msg "+wCommand(c), fmt.Sprintf("ok %s %s 1", hxn(b), b2i(pb.Equal(fresh, c))))
 			out.Count("command")
-			// known finding K7: a Command recycled by ResetVT keeps a non-nil empty RangeEnd
+			// decoded into a recycled object: the receiver is first filled with the PREVIOUS generated
+			// command (batches with values and revisions, nested sequences, transactions) and a
+			// range_end, reset, then decoded into.  Known finding K7: a Command recycled by ResetVT keeps
+			// a non-nil empty RangeEnd (here and in the retained nested commands); that difference -
+			// and only that one - is counted for the kf line and taken out; whatever else differs from
+			// the original (a stale batch value, revision, nested field) is the third flag of the line.
 			p := regattapb.CommandFromVTPool()
-			must(p.UnmarshalVT(mustMarshal(codec, &regattapb.Command{RangeEnd: []byte("x"), Table: []byte("t")})))
+			dirty := pb.Clone(prevCmd).(*regattapb.Command)
+			if dirty.RangeEnd == nil {
+				dirty.RangeEnd = []byte("x")
+			}
+			must(p.UnmarshalVT(mustMarshal(codec, dirty)))
 			p.ResetVT()
 			must(p.UnmarshalVT(b))
-			if !pb.Equal(p, c) {
+			if k7 := stripK7(p, c); k7 > 0 {
 				pooledCmdMismatch++
 			}
+			okP := pb.Equal(p, c)
+			if !okP {
+				out.Stats["pooled_command_other_mismatch"]++
+			}
+			out.Line("msg "+wCommand(c), fmt.Sprintf("ok %s %s %s", hxn(b), b2i(pb.Equal(fresh, c)), b2i(okP)))
+			prevCmd = c
 		}
 	}
 	if pooledCmdMismatch > 0 {
@@ -268,6 +283,23 @@ func hWire(dir string) {
 		out.Line("kf K7 pooled-command", "ok same")
 	}
 	out.Stats["pooled_command_mismatches"] = pooledCmdMismatch
+}
+
+// stripK7 removes known finding K7 from a decoded pooled command: wherever the original has no
+// range_end and the recycled receiver shows an empty non-nil one, the receiver's is set to nil.
+// Returns how many places that was.
+func stripK7(p, c *regattapb.Command) int {
+	n := 0
+	if c.RangeEnd == nil && p.RangeEnd != nil && len(p.RangeEnd) == 0 {
+		p.RangeEnd = nil
+		n++
+	}
+	for i := range c.Sequence {
+		if i < len(p.Sequence) && p.Sequence[i] != nil && c.Sequence[i] != nil {
+			n += stripK7(p.Sequence[i], c.Sequence[i])
+		}
+	}
+	return n
 }
 
 func mustMarshal(c encoding.Codec, m interface{}) []byte {
